@@ -184,6 +184,35 @@ static void RunBuildLog(const string& in) {
   if (st == LOAD_SUCCESS) g_counts->accepted++; else g_counts->rejected++;
 }
 
+// a dyndep file as the tools meet it: `-t query`, `-t graph` and `-t clean` load the dyndep files of what they walk and go
+// on after an error, which they report themselves (text of the file ends up in their messages)
+static void RunDyndepTools(const string& in) {
+  g_disk.files.clear();
+  g_disk.Write("build.ninja", "rule r\n  command = c\nbuild out: r in || dd\n  dyndep = dd\nbuild top: r out\n");
+  g_disk.Write("dd", in);
+  g_disk.Write("in", "");
+  vfs::disk = &g_disk;
+  vfs::active = true;
+  {
+    BuildConfig config;
+    config.dry_run = true;
+    NinjaMain nm("ninja", config);
+    ManifestParser p(&nm.state_, &nm.disk_interface_);
+    string err;
+    if (p.Load("build.ninja", &err)) {
+      Options o = {};
+      char t0[] = "top", t1[] = "out";
+      char* av[] = {t0, t1, nullptr};
+      int rc = nm.ToolQuery(&o, 2, av);
+      rc |= nm.ToolGraph(&o, 2, av);
+      Cleaner cleaner(&nm.state_, config, &nm.disk_interface_);
+      rc |= cleaner.CleanAll();
+      if (rc == 0) g_counts->accepted++; else g_counts->rejected++;
+    }
+  }
+  vfs::active = false;
+}
+
 static void RunDepsLog(const string& in) {
   g_disk.files.clear();
   static const char hdr[] = "# ninjadeps\n\x04\x00\x00\x00";
@@ -364,6 +393,10 @@ static vector<Format> Formats() {
                 string(1, '\0'), "\r\n", " out2x", "in", "out2x", "dd", "build in: dyndep\n", "build out2x: dyndep\n", "build out: dyndep | dd\n",
                 "build out3: dyndep\n"},
                RunDyndep});
+  f.push_back({"dyndep_tools",
+               {"ninja_dyndep_version = 1\n", "build out: dyndep", " | ", "\n", "build ", "out", ": dyndep", "%s%s%s%s%n", "%n", "x", "$", "  restat = ",
+                "ninja_dyndep_version = ", "%d%999999d"},
+               RunDyndepTools});
   f.push_back({"ninja_log",
                {"# ninja log v7\n", "# ninja log v6\n", "# ninja log v", "1", "\t", "a", "\n", "99999999999999999999", "-1",
                 "deadbeef", string(1, '\0'), "\r", "7"},
